@@ -38,9 +38,9 @@ SK_LOOP = both(sk.rule_sk_parse, sk.rule_sk_eof, sk.rule_sk_nr, sk.rule_sk_nf, s
 SK_SELECT = both(sk.rule_sk_emit, sk.rule_sk_unnest, sk.rule_sk_unnest_pos, sk.rule_sk_join, sk.rule_sk_paren, sk.rule_sk_relay)
 SK_UPDATE = both(sk.rule_sk_copy, sk.rule_sk_upd, sk.rule_sk_nu, sk.rule_sk_paren)
 SK_ALL = SK_LOOP + SK_SELECT + SK_UPDATE + both(sk.rule_sk_stop, sk.rule_sk_err, sk.rule_sk_alias) + py(sk.rule_sk_scope)
-WR_ALL = both(wr.rule_wr_ret, wr.rule_wr_prop, wr.rule_wr_fin, wr.rule_wr_top, wr.rule_wr_uniq, wr.rule_wr_ucnt, wr.rule_wr_sort, wr.rule_wr_aggw)
+WR_ALL = both(wr.rule_wr_ret, wr.rule_wr_prop, wr.rule_wr_fin, wr.rule_wr_top, wr.rule_wr_uniq, wr.rule_wr_ucnt, wr.rule_wr_sort, wr.rule_wr_aggw, wr.rule_wr_afterfwd, wr.rule_wr_freshrow)
 CONF_ALL = both(conf.rule_pa_conf, conf.rule_wr_order, conf.rule_pa_excl, conf.rule_pa_hdrcall, conf.rule_hd_arity, conf.rule_pa_with, conf.rule_rs_proto)
-AG_ALL = both(ag.rule_ag_route, ag.rule_ag_init, ag.rule_ag_stage, ag.rule_ag_const, ag.rule_ag_sib, ag.rule_ag_starcount, ag.rule_ag_keyord, agfold.rule_ag_fold, agfold.rule_ag_median) + one(ag.rule_ag_mad, agfold.rule_ag_parse, agfold.rule_ag_numparse)
+AG_ALL = one(agfold.rule_ag_numparse_js) + both(ag.rule_ag_route, ag.rule_ag_init, ag.rule_ag_stage, ag.rule_ag_const, ag.rule_ag_sib, ag.rule_ag_starcount, ag.rule_ag_keyord, agfold.rule_ag_fold, agfold.rule_ag_median) + one(ag.rule_ag_mad, agfold.rule_ag_parse, agfold.rule_ag_numparse)
 JN_ALL = both(ag.rule_jn_dispatch, ag.rule_jn_joiners, ag.rule_jn_build, ag.rule_pa_join)
 HD_ALL = both(hd.rule_hd_table, hd.rule_hd_startwin, hd.rule_hd_except, hd.rule_hd_update, hd.rule_hd_emit, conf.rule_hd_countpos) + one(hd.rule_hd_shapes)
 VA_ALL = both(hd.rule_va_index, hd.rule_va_enum, hd.rule_va_esc) + one(hd.rule_va_record)
@@ -82,7 +82,7 @@ PROPS = {
         'not_decided': 'that user sort keys are mutually comparable; stability of sorted()/Array.sort (trusted language semantics).',
     },
     'C03': {
-        'rules': AG_ALL + both(wr.rule_wr_aggw, sk.rule_sk_alias, sk.rule_sk_emit, conf.rule_pa_excl),
+        'rules': AG_ALL + both(wr.rule_wr_aggw, wr.rule_wr_freshrow, sk.rule_sk_alias, sk.rule_sk_emit, conf.rule_pa_excl),
         'thorough_rules': both(sk.rule_sk_where, wr.rule_wr_prop) + one(xp.rule_xp_roles),
         'explanation': 'Decides routing and grouping: each aggregate entry point (and every alias spelling bound in the generated prologue) registers the aggregator class of the same name, COUNT passes 1, token ids equal registration order, stage 1 installs one aggregator or constant-group verifier per output column and feeds the first record, stage 2 increments aggregator i with value i, group keys are collected in a set and emitted in ascending component-wise order, one get_final per column; constant-group verifier raises on a differing value and tests absence by membership; lower-case min/max/sum dispatch; COUNT(*) rewrite; ORDER BY/UPDATE/DISTINCT rejected. rbql-js parse_number hands back only values tested with isNaN on that path. Python NumHandler.parse makes ints from the text itself (never via float, which is exact only up to 2**53) and reaches float(text) only behind the int attempt or the is_int flag.',
         'not_decided': 'floating-point rounding of the accumulators and the order of additions (AG-FOLD decides the fold expressions up to algebraic identity over the rationals, AG-MEDIAN the even/odd selection; bit-exact results are statements about runtime values).',
@@ -160,7 +160,7 @@ PROPS = {
         'not_decided': 'OS-level behaviour of pipes and the text wrapper\'s flushing.',
     },
     'C16': {
-        'rules': GS_ALL + py(sk.rule_sk_scope, lk.rule_lk_cache, ow.rule_ow_mut, ow.rule_ow_open) + one(hd.rule_va_record) + py(ifc.rule_if_regfresh),
+        'rules': GS_ALL + py(sk.rule_sk_scope, lk.rule_lk_cache, ow.rule_ow_mut, ow.rule_ow_open, ow.rule_ow_conn) + one(hd.rule_va_record) + py(ifc.rule_if_regfresh),
         'thorough_rules': py(sk.rule_sk_alias),
         'explanation': 'Decides isolation as absence of shared mutable state (hence independence of every schedule and history): inventory of module-level bindings with every mutable one never the receiver of a mutating operation; `global` writes allow-listed (two debug flags); no class-level mutable attribute, no mutable default; the per-query context is created per call, only passed down or captured by per-run closures; exec receives explicit globals and a per-call locals mapping and runs the composed skeleton whose every binding is local to the wrapper function; the LIKE cache lives in the context. Module-level tables filled only as pure memos (value computed from the key alone by side-effect free operations) are accepted; module-level instances of classes whose methods change them are shared state; registries hand out fresh iterators.',
         'not_decided': 'stdlib-internal caches (re) and whatever user expressions touch; the JavaScript module-global query_context is outside this property\'s anchors and reported only as evidence.',
